@@ -455,6 +455,8 @@ def ground_terms(fs, sort, limit=40):
             kind = f.decl().kind()
             ch = f.children()
             stack.extend(ch)
+            if not is_int and kind == z3.Z3_OP_SEQ_NTH and f.sort().eq(sort) and not has_var(f):
+                out.setdefault(f.get_id(), f)      # an element read from a sequence is a natural instance for value-quantified facts
             if kind in (z3.Z3_OP_SEQ_NTH, z3.Z3_OP_SEQ_AT, z3.Z3_OP_SEQ_EXTRACT) or (kind == z3.Z3_OP_UNINTERPRETED and f.decl().name() in ('seq.nth_i', 'seq.nth_u')):
                 cands = ch[1:2]
                 if is_int and z3.is_app(ch[0]) and ch[0].decl().kind() == z3.Z3_OP_SEQ_EXTRACT and not has_var(f):
